@@ -131,10 +131,10 @@ func (g *s3hGen) next() string {
 	case "versioning":
 		w["ver"], w["del"], w["lsv"], w["get"] = 7, 16, 5, 12
 	case "meta":
-		w["cp"], w["ptag"], w["gtag"], w["head"], w["trans"] = 14, 6, 4, 12, 5
+		w["cp"], w["ptag"], w["gtag"], w["head"], w["trans"], w["app"], w["ver"] = 14, 6, 4, 12, 5, 10, 5
 	case "append":
 		w["app"], w["ver"] = 22, 5
-	case "transition":
+	case "transition", "routing": // "routing" = "transition" plus the routing histories on the "route" stack (s3hist_routing.go)
 		w["trans"], w["cp"] = 12, 10
 	}
 	if !g.withPartCopy {
@@ -341,6 +341,19 @@ func s3hDirected() [][]string {
 			"op mkb b0", "op ver b0 E",
 			"op put b0 k0 " + h("base") + " ct=" + h("text/plain") + " md=" + h("!cc") + ":" + h("no-cache") + "," + h("a") + ":" + h("1") + " tags=" + h("t") + ":" + h("v") + " cls=" + h("STANDARD_IA") + " inm=0 im=~",
 			"op app b0 k0 " + h("+more") + " off=4", "op head b0 k0 vid=~", "op gtag b0 k0 vid=~",
+		},
+		{ // C11: append in a SUSPENDED bucket over a ULID version carrying metadata, tags and a class:
+			// the new null version keeps them (the write goes through the put path)
+			"op mkb b0", "op ver b0 E",
+			"op put b0 k0 " + h("base") + " ct=" + h("text/plain") + " md=" + h("!cc") + ":" + h("no-cache") + "," + h("a") + ":" + h("1") + " tags=" + h("t") + ":" + h("v") + " cls=" + h("GLACIER") + " inm=0 im=~",
+			"op ver b0 S", "op app b0 k0 " + h("+more") + " off=4", "op head b0 k0 vid=~", "op gtag b0 k0 vid=~", "op head b0 k0 vid=v0", "op lsv b0",
+		},
+		{ // C11: CopyObject with tagging directive REPLACE and an EMPTY tag set leaves the copy untagged;
+			// metadata directive REPLACE with empty metadata leaves it without user metadata
+			"op mkb b0",
+			"op put b0 k0 " + h("src") + " ct=" + h("text/plain") + " md=" + h("a") + ":" + h("1") + " tags=" + h("t") + ":" + h("v") + " cls=~ inm=0 im=~",
+			"op cp b0 k0 b0 k1 svid=~ mdir=C tdir=R ct=~ md=~ tags=~ cls=~", "op gtag b0 k1 vid=~", "op head b0 k1 vid=~",
+			"op cp b0 k0 b0 dir/k2 svid=~ mdir=R tdir=C ct=~ md=~ tags=~ cls=~", "op gtag b0 dir/k2 vid=~", "op head b0 dir/k2 vid=~",
 		},
 		{ // delete marker then append in a suspended bucket
 			"op mkb b0", "op ver b0 E", "op put b0 k0 " + h("v") + " ct=~ md=~ tags=~ cls=~ inm=0 im=~", "op del b0 k0 vid=~ im=~", "op ver b0 S",
